@@ -150,6 +150,28 @@ let () =
                deliver tag from pk
              end
            | ["X"; a; hx] -> deliver "X" (int_of_string a) (bytes_of_hex hx)
+           | ["L"; mb; js] ->
+             let idx = List.filter (fun j -> j < !nsent)
+                         (List.map int_of_string (List.filter (fun x -> x <> "") (String.split_on_char ',' js))) in
+             let queue = List.map (fun j -> let (pk, si) = List.nth !sent (!nsent - 1 - j) in
+                                            (n_of_int (Hashtbl.find senders si).addr, pk)) idx in
+             let (out, rest) =
+               if mini then mrecv_loop inflate rc (n_of_string mb) N0 queue
+               else (let ((t', o), r) = recv_loop rc !tbl (n_of_string mb) N0 queue in tbl := t'; (o, r)) in
+             Buffer.add_string buf (Printf.sprintf "L%d[" (List.length rest));
+             let vis = if mode = "B" then out else List.filter (fun (_, m) -> m <> []) out in
+             Buffer.add_string buf (String.concat "," (List.map (fun (a, m) -> string_of_int (int_of_n a) ^ ":" ^ hex_of_bytes m) vis));
+             Buffer.add_char buf ']';
+             if not mini then begin
+               Buffer.add_char buf '{';
+               Buffer.add_string buf (String.concat "," (List.map (fun (a, rs) ->
+                 let off = int_of_n rs.r_off in
+                 let sz = List.length rs.r_buf in
+                 let pre = if off <= sz then List.filteri (fun i _ -> i < off) rs.r_buf else [] in
+                 Printf.sprintf "%d:%d:%d:%d:%s" (int_of_n a) (int_of_n rs.r_id) off sz (hex_of_bytes pre)) !tbl));
+               Buffer.add_char buf '}'
+             end;
+             Buffer.add_char buf ';'
            | _ -> Buffer.add_string buf "?;") ops;
          Printf.printf "%d %s\n" k (Buffer.contents buf)
        | _ -> Printf.printf "%d BADCASE head\n" k)
